@@ -72,7 +72,8 @@ def generate(rng, tier):
                     case["desc"]["late_window"] = True
             cases.append(case)
     # fixed: a scale of exactly 0 (a legitimate value: it is not "absent") at either level, and a negative one
-    for mo in ({"Y": {"Scale": 0.0, "Offset": 0.25}}, {"Y": {"Scale": 0.0}}, {"Q[S(Q)-1]": {"Y": {"Scale": 0.0, "Offset": 0.1}}},
+    for mo in ({"Y": {"Offset": 0.3, "Scale": 1.5}, "Q[S(Q)-1]": {"Y": {"Offset": 1.25, "Scale": 3.0}}},      # the keys in alphabetical order
+               {"Y": {"Scale": 0.0, "Offset": 0.25}}, {"Y": {"Scale": 0.0}}, {"Q[S(Q)-1]": {"Y": {"Scale": 0.0, "Offset": 0.1}}},
                {"Y": {"Scale": -1.0, "Offset": 0.5}, "Q[S(Q)-1]": {"Y": {"Scale": 1.5, "Offset": -0.5}}}):
         cfg = SL.gen_config(rng, global_window=False)
         cfg["Merging"] = mo
